@@ -255,3 +255,56 @@ def stepped_up_counters(body):
                 if k is not None and k > 0 and src == st["lhs"]["l"] and all(body.dominates(bi, l_) for l_ in latches):
                     out.add(st["lhs"]["l"])
     return out
+
+
+def trip_counts(body):
+    """head -> (N, blocks, next-call block, element operands or None) for loops that run a statically known number of times: a `for` over a
+    fixed-size array (by value, `iter()` or `iter_mut()`) or over a range with constant bounds, whose only exits are the
+    exhaustion of that iterator and error/return edges.  Used to count effects written once in a loop over an array."""
+    import re as _re
+
+    ix = BodyIndex(body)
+    out = {}
+    for lp in classify(body):
+        if lp["kind"] != "ITER":
+            continue
+        blocks = lp["blocks"]
+        latches = [p for p in body.pred(lp["head"]) if p in blocks]
+        for bi in sorted(blocks):
+            t = body.blocks[bi]["t"]
+            if t["k"] != "call" or (t.get("res") or "").split("::")[-1] != "next" or not all(body.dominates(bi, l_) for l_ in latches):
+                continue
+            # the iterator operand -> the local holding the iterator -> how it was made
+            d = derive(ix, t["args"][0]) if t.get("args") else None
+            if d is None:
+                continue
+            n = None
+            elems = None
+            for c in d.calls:
+                last = c.split("::")[-1]
+                if last in ("into_iter", "iter", "iter_mut"):
+                    # find that call and the type of its argument
+                    for _bj, tj in body.calls():
+                        if (tj.get("res") or "") == c and tj.get("args"):
+                            q = op_place(tj["args"][0])
+                            ty = (q or {}).get("ty") or ((tj["args"][0].get("k") or {}).get("ty") if isinstance(tj["args"][0], dict) else "") or ""
+                            m = _re.search(r"\[[^\[\];]+; (\d+)\]", ty)
+                            if m and tj.get("dest") and tj["dest"]["l"] in d.locals:
+                                n = int(m.group(1))
+                                ra = ix.resolve(tj["args"][0])
+                                if ra[0] == "rv" and ra[1]["k"] == "ref":
+                                    ra = ix.resolve({"c": ra[1]["p"]}) if not ra[1]["p"]["p"] else ra
+                                if ra[0] == "rv" and ra[1]["k"] == "agg" and ra[1].get("ak") == "array" and len(ra[1]["ops"]) == n:
+                                    elems = list(ra[1]["ops"])
+            if n is None:
+                # Range { start: const, end: const }
+                for _b2, _s2, st in body.stmts():
+                    rv = st.get("rv") or {}
+                    if st["k"] == "assign" and rv.get("k") == "agg" and (rv.get("adt") or "").endswith("ops::Range") and st["lhs"]["l"] in d.locals and len(rv["ops"]) == 2:
+                        lo, hi = ix.resolve(rv["ops"][0]), ix.resolve(rv["ops"][1])
+                        if lo[0] == "const" and hi[0] == "const" and hi[1] >= lo[1]:
+                            n = hi[1] - lo[1]
+            if n is not None and not ({"take", "skip", "step_by", "filter", "rev", "zip", "chain", "take_while", "skip_while"} & {c.split("::")[-1] for c in d.calls}):
+                out[lp["head"]] = (n, blocks, bi, elems)
+            break
+    return out
